@@ -1,5 +1,6 @@
 import TcheranVerif.Model.Eval
 import TcheranVerif.Model.Rules
+import TcheranVerif.Proofs.EvalBound
 /-!
 # C16 — evaluation: proper blend, packed representation, table-level colour symmetry
 
@@ -9,8 +10,17 @@ import TcheranVerif.Model.Rules
 * `midgame_pack` / `endgame_pack` — the packed `i32` representation returns what was packed.
 * `pst_mirror`, `passed_pst_mirror`, `passed_mask_mirror` — the colour symmetry of every table the
   evaluation reads, decided by the kernel on the tables regenerated from `/repo`
-  (6 × 64 + 64 + 64 entries). `eval_mirror` for whole positions and `eval_bounded` are carried by
-  the correspondence/oracle stream only (stated below as `…_full : Prop`, not proved: partial).
+  (6 × 64 + 64 + 64 entries).
+* **`eval_bounded`** — for every legal position (the decidable `Legal` predicate: one king a side, at most
+  sixteen men a side, …) whose board views agree and whose accumulators are in step with the board (C02,
+  C15), the evaluation **completes** — every mobility / king-attack table index is in range, the packed
+  middlegame and endgame sums stay inside `i16` so their extraction is exact, `i16::try_from` succeeds — and
+  its value lies **strictly inside** (−31,900, 31,900), the range reserved for non-mate scores; in fact
+  within ±31,130. Promoted pieces included: the bound uses only "at most fifteen men besides the king".
+  `Proofs/EvalBound.lean`: every fold of the evaluation keeps "accumulator = pack m e with m, e between
+  class bounds × number of men processed"; class bounds are checked against the regenerated tables by the
+  kernel; the rest is linear arithmetic. `SliderTables` (C07) bounds the slider popcounts.
+  `eval_mirror` for whole positions is carried by the correspondence/oracle stream only: partial.
 -/
 namespace Tcheran.Props.C16
 open Tcheran Tcheran.Eval
@@ -85,10 +95,21 @@ theorem passed_pst_mirror : ∀ s : Sq, passedPst .black (Sq.flip s) = -(passedP
 theorem passed_mask_mirror : ∀ s : Sq, passedMask .black (Sq.flip s) = BB.flipV (passedMask .white s) := by
   decide +kernel
 
-/-- full statements that remain carried by the oracle stream only (not proved) -/
-def eval_bounded_full : Prop :=
-  ∀ g : Game, Rules.legalPos ⟨g.board.squares, g.player, g.rights, g.ep, g.halfmove, g.plies⟩ = true →
-    g.inc = Game.incInit theCfg g.board → ∃ v, Eval.eval g = some v ∧ -31900 < v ∧ v < 31900
+/-- **eval_bounded**: total (no out-of-range index, no overflow of the packed sums, no failing narrowing)
+and strictly inside the non-mate range, for every legal position -/
+theorem eval_bounded (T : SliderTables) (g : Game) (hc : Board.Consistent g.board)
+    (hl : Rules.legalPos (Rules.ofGame g) = true) (hinc : g.inc = Game.incInit theCfg g.board) :
+    ∃ v, Eval.eval g = some v ∧ -31900 < v ∧ v < 31900 :=
+  eval_bounded_legal T g hc hl hinc
+
+/-- the same from the counts alone (any number of promoted pieces among at most sixteen men a side) -/
+theorem eval_bounded_counts (T : SliderTables) (g : Game) (hc : Board.Consistent g.board)
+    (hinc : g.inc = Game.incInit theCfg g.board)
+    (hKw : cnt g.board (isK .white) sqs = 1) (hKb : cnt g.board (isK .black) sqs = 1)
+    (hW : cnt g.board (isP .white) sqs + cnt g.board (isO .white) sqs + cnt g.board (isK .white) sqs ≤ 16)
+    (hB : cnt g.board (isP .black) sqs + cnt g.board (isO .black) sqs + cnt g.board (isK .black) sqs ≤ 16) :
+    ∃ v, Eval.eval g = some v ∧ -31130 ≤ v ∧ v ≤ 31130 :=
+  eval_total_bounded T g hc hinc hKw hKb hW hB
 
 /-- non-vacuity: a concrete blend -/
 example : forPhase (pack 100 200) 20 = some 116 := by decide
@@ -105,3 +126,5 @@ end Tcheran.Props.C16
 #print axioms Tcheran.Props.C16.passed_pst_mirror
 #print axioms Tcheran.Props.C16.passed_mask_mirror
 #print axioms Tcheran.Props.C16.phaseCountMax_eq
+#print axioms Tcheran.Props.C16.eval_bounded
+#print axioms Tcheran.Props.C16.eval_bounded_counts
